@@ -157,6 +157,20 @@ def check_requery_nul_alias(t1: int, t2: int, grow: bool, n1: bool, n2: bool) ->
     return _second_query("nul_alias", t1, t2, grow, n1, n2)
 
 
+def check_two_sketches_independent(c0: int, c1: int, d0: int, thr: int) -> bool:
+    """
+    pre: 0 <= c0 < 2**32 and 0 <= c1 < 2**32 and 0 <= d0 < 2**32 and 0 <= thr < 2**32
+    post: _ == True
+    """
+    a = mk("distinct", c0, c1, c0 + c1 + 1)
+    b = mk("same", d0, d0, 2 * d0 + 1)
+    ra1 = a.query(10, thr)
+    rb = b.query(10, thr)
+    ra2 = a.query(10, thr)
+    want_b = stored("same", d0, d0)
+    return ra1 == ra2 and sorted(ra1) == sorted(_fresh(a, thr)) and all(k in want_b for k, _ in rb)
+
+
 def check_twin_query_nonempty_reachable(c0: int, c1: int, thr: int) -> bool:
     """
     pre: 0 <= c0 < 2**32 and 0 <= c1 < 2**32 and 0 <= thr < 2**32
@@ -182,6 +196,11 @@ def real_query_empty_and_allnul(c0, c1, k, thr): return _real_query("empty_and_a
 def _real_requery(pattern, t1, t2, grow, n1, n2):
     ok = _second_query(pattern, t1, t2, grow, n1, n2)
     return ok, f"pattern {pattern}: query({'None' if n1 else t1}); counts (10,4)->({13 if grow else 10},{5 if grow else 4}) n_added+={4 if grow else 0}; query({'None' if n2 else t2}) {'==' if ok else '!='} answer of a cache-free copy"
+
+
+def real_two_sketches_independent(c0, c1, d0, thr):
+    ok = check_two_sketches_independent(c0, c1, d0, thr)
+    return ok, "query A, query B, query A again: A's answer " + ("unchanged" if ok else "CHANGED / contains another sketch's keys")
 
 
 def real_requery_distinct(*a): return _real_requery("distinct", *a)
